@@ -1,1 +1,27 @@
-fn main(){}
+mod c11;
+mod c12;
+mod c13;
+mod c18;
+mod refpoly;
+use vcore::Report;
+
+fn main() {
+    let id = std::env::args().nth(1).unwrap_or_default();
+    let id = if id == "replay" {
+        let f = std::env::args().nth(2).unwrap_or_default();
+        let v: serde_json::Value = serde_json::from_str(&std::fs::read_to_string(&f).unwrap_or_default()).unwrap_or_default();
+        v["property"].as_str().unwrap_or("").to_string()
+    } else {
+        id
+    };
+    match id.as_str() {
+        "C11" => c11::main(Report::from_args("exploration")),
+        "C12" => c12::main(Report::from_args("exploration")),
+        "C13" => c13::main(Report::from_args("model_checking")),
+        "C18" => c18::main(Report::from_args("exploration")),
+        _ => {
+            eprintln!("MACHINERY: poly serves C11, C12, C13, C18");
+            std::process::exit(2)
+        }
+    }
+}
